@@ -1,6 +1,7 @@
 import PV.Common.Proto
 import PV.C13.Model
 import PV.C13.Spec
+import PV.C13.Domain
 /-! Driver for C13: answers the same request lines as `harness/src/bin/pvh_c13.rs` with the model.
 
   `locseq <d|r> <text> <op>…`        ops `l<off>` locate, `o<off>` locate_only, `e<off>` locate_error
@@ -53,12 +54,13 @@ def showOp : Op → String
   | .locate o => s!"l{o}"
   | .locateOnly o => s!"o{o}"
 
-/-- replay; first index where the model's result differs from the recorded one -/
-def replayGo (dbg : Bool) (src : List Nat) : St → Nat → List (Op × Option String) → String
-  | _, i, [] => s!"ok {i}"
+/-- replay; first index where the model's result differs from the recorded one.  `fwd` says whether
+    the recorded history satisfies the hypothesis of `linear_eq_spec` (`Forward`). -/
+def replayGo (dbg : Bool) (src : List Nat) (fwd : Bool) : St → Nat → List (Op × Option String) → String
+  | _, i, [] => s!"ok {i} fwd={fwd}"
   | st, i, (op, want) :: rest =>
     let (r, st') := step dbg src st op
-    if some (showRC r) == want then replayGo dbg src st' (i + 1) rest
+    if some (showRC r) == want then replayGo dbg src fwd st' (i + 1) rest
     else s!"diff@{i}:{showOp op}={showRC r}"
 
 def handle : List String → String
@@ -68,7 +70,8 @@ def handle : List String → String
     | _, _, _ => "bad-request"
   | "trace" :: f :: _mode :: t :: ops =>
     match flavour f, unhex t, parseOps ops with
-    | some dbg, some src, some ops => replayGo dbg src (St.init src) 0 ops
+    | some dbg, some src, some ops =>
+      replayGo dbg src (decide (Forward src (initCursor src) (ops.map (·.1)))) (St.init src) 0 ops
     | _, _, _ => "bad-request"
   | "spec" :: t :: offs =>
     match unhex t with
